@@ -19,6 +19,11 @@ type Part struct {
 	Ref   string `json:"ref,omitempty"`   // "import/path.Name" rendered with snippet.ID (registers the import)
 	State string `json:"state,omitempty"` // "inst-count": decimal count of types this instance has seen; "helper-once": Text only the first time per instance
 	Value string `json:"value,omitempty"` // JSON of a map[string]int rendered with snippet.Value
+	// Tmpl: a snippet.T template whose @name placeholders are bound to snippet.ID(TArgs[name]).
+	Tmpl  string            `json:"tmpl,omitempty"`
+	TArgs map[string]string `json:"targs,omitempty"`
+	// DocRef: "import/path.Type": render the doc lines Package(path).Doc reports for that type as one comment.
+	DocRef string `json:"doc_ref,omitempty"`
 }
 
 // Rule says what a scripted generator does for one (package, type).
